@@ -89,12 +89,12 @@ CHECKS.update({
 })
 
 CHECKS.update({
-    "C07": _mc("the typing judgement (spec/Typing.tla, MC_Typing.tla)",
-               "every well-/ill-typed construct at every position of a logical expression, selector defects, integer bounds under default and narrowed limits; type soundness of accepted programs",
+    "C07": _mc("the typing judgement (spec/Typing.tla, MC_Typing.tla) and the specification's own front end closed on itself (Lexer.tla, Parser.tla, ParseBack.tla, MC_ParseRender.tla: parser verdict = typing verdict, Parse o Lex o Render = identity)",
+               "every well-/ill-typed construct at every position of a logical expression, selector defects, integer bounds under default, narrowed, asymmetric and zero limits; type soundness of accepted programs; the real lexer's tokens and the real parser's tree / error class for every text and every lexeme soup validated by TLC against the lexer and parser models (Trace_Parser.tla)",
                "Trusted: independent transcription of RFC 9535 2.4.3 and the 2.1-2.5 grammar side conditions; renderer.",
-               "TLA+ typing rules evaluated by TLC over enumerated programs (with type soundness checked); verdict compared with what compile() accepts in every spelling", "5 (C07)"),
+               "TLA+ typing rules evaluated by TLC over enumerated programs (with type soundness checked); verdict compared with what compile() accepts in every spelling; trace validation of recorded (text, tokens, tree) triples against TLA+ lexer and parser models", "5 (C07)"),
     "C10": _mc("the program universes of MC_PathEval / MC_Filter / MC_Ext / MC_Compound with the specification's semantics",
-               "every exported program in every spelling: compile, print, recompile, print; recompiled query evaluated against the semantics of the original AST",
+               "every exported program in every spelling: compile, print, recompile, print; recompiled query evaluated against the semantics of the original AST; the syntax tree of the string form equals the tree of the original; tokens and trees of every spelling and string form validated by TLC against Lexer.tla / Parser.tla and mapped back to the program (Trace_ParseBack.tla)",
                "Trusted: the specification's semantics of the original program; documents of each universe stand in for 'every document'.",
                "TLC-exported programs round-tripped through str()/compile() and the recompiled query compared with the TLA+ semantics of the original", "5 (C10)"),
 })
